@@ -7,6 +7,7 @@ package main
 import (
 	"fmt"
 	"runtime"
+	"sort"
 	"sync"
 	"sync/atomic"
 	"time"
@@ -83,7 +84,6 @@ type retained struct {
 	task  int
 	op    int
 	key   opKey
-	ptrs  map[uintptr]struct{}
 	share bool // a shared (prologue) subject
 }
 
@@ -140,6 +140,7 @@ type sim struct {
 	exited         sync.WaitGroup
 	foreign        int64
 	countOnly      bool
+	trace          *[]uint32 // countOnly: the sequence of yield sites
 	wantText       bool
 	infeasible     int
 }
@@ -168,6 +169,9 @@ func (s *sim) counted(site uint32) bool {
 func (s *sim) Yield(site uint32) {
 	if s.countOnly {
 		s.step++
+		if s.trace != nil {
+			*s.trace = append(*s.trace, site)
+		}
 		return
 	}
 	t := s.cur.Load()
@@ -801,28 +805,53 @@ func (s *sim) checkDisjoint() {
 	if len(all) < 2 {
 		return
 	}
-	owner := map[uintptr]*retained{}
 	type pair struct{ a, b *retained }
 	cand := map[pair]bool{}
+	type own struct {
+		extent
+		r *retained
+	}
+	var exts []own
 	for _, r := range all {
-		r.ptrs = map[uintptr]struct{}{}
-		reach(r.sub.val, r.ptrs)
-		reach(r.sub.err, r.ptrs)
-		for p := range r.ptrs {
-			if o, ok := owner[p]; ok && o != r {
-				cand[pair{o, r}] = true
-			} else {
-				owner[p] = r
+		m := map[extent]struct{}{}
+		reach(r.sub.val, m)
+		reach(r.sub.err, m)
+		for e := range m {
+			exts = append(exts, own{e, r})
+		}
+	}
+	sort.Slice(exts, func(i, j int) bool { return exts[i].lo < exts[j].lo })
+	// sweep: overlapping extents of different results
+	var maxHi uintptr
+	var maxOwner *retained
+	for i, e := range exts {
+		if i > 0 && e.lo < maxHi && maxOwner != e.r {
+			cand[pair{maxOwner, e.r}] = true
+		}
+		// also against the direct predecessor chain (same owner may have raised maxHi)
+		for j := i - 1; j >= 0 && j >= i-8; j-- {
+			if exts[j].hi > e.lo && exts[j].r != e.r {
+				cand[pair{exts[j].r, e.r}] = true
 			}
+		}
+		if e.hi > maxHi {
+			maxHi, maxOwner = e.hi, e.r
 		}
 	}
 	s.faults["o4-candidates"] += len(cand)
 	for pr := range cand {
-		// witness: scribble a, observe b
+		// witness: scribble a, observe b (then the other way round)
 		before := structHash(pr.b.sub.val, pr.b.sub.err)
 		scribble(pr.a.sub.val)
 		scribble(pr.a.sub.err)
 		after := structHash(pr.b.sub.val, pr.b.sub.err)
+		if before == after {
+			pr.a, pr.b = pr.b, pr.a
+			before = structHash(pr.b.sub.val, pr.b.sub.err)
+			scribble(pr.a.sub.val)
+			scribble(pr.a.sub.err)
+			after = structHash(pr.b.sub.val, pr.b.sub.err)
+		}
 		if before != after {
 			s.fails = append(s.fails, failure{Oracle: "O4", Task: pr.b.task, Op: pr.b.op, Key: pr.b.key.String(), Got: after, Want: before,
 				Detail: fmt.Sprintf("the results of two different calls share mutable memory: overwriting the values returned for %s (task %d op %d) changed the values returned for this call",
